@@ -1,6 +1,6 @@
 """C09 (lattice family; see latfam.py)."""
-from . import latfam
+from . import latfam, util
 
-globals().update(latfam.module('C09', ['C09_empty_upset_union', 'C09_empty_downset_union'],
+globals().update(latfam.module('C09', util.theorems('C09'),
     'contexts as C03; upset()/downset() of every concept (sampled beyond 64), unions for all pairs (<=10 concepts, else sampled) and multisets with repeats/comparable members, interleaved and abandoned traversals; non-trivial = seeds comparable or repeated in a lattice with a concept having >=2 upper neighbours',
-    extra_targets=[], partial='heap merge decided by the correspondence'))
+    extra_targets=[], partial=''))
